@@ -210,8 +210,25 @@ class Layout(object):
         self.adjacent_len = None
         self.nulls = 0
         self.prop_tlv = False
-        self.hdr_declared_on_header = False
+        self.hdr_declared_on_header = False   # (= len3_outside; kept for older callers)
+        self.len1_outside = False  # a DECLARED range lies between the T byte and the 1-byte length field
+        self.len3_outside = False  # a DECLARED range lies between the T byte and the last byte of the 3-byte length field
+        self.behind_length = 0    # 2 | 4: a declared range starts directly behind the 1-byte / 3-byte length field
+        self.free_target = None   # requested number of usable bytes from the T byte on (reached iff == len(free))
         self.hdr_straddle = 0     # NDEF TLV T byte this many usable bytes in front of blocks Dh..Fh (0: header contiguous)
+
+    def length_field_on_reserved(self, n):
+        """storing an n byte message needs a TLV header (T + 1 or 3 length bytes) that spans a DECLARED reserved range:
+        such a (layout, length) pair is outside the layouts the tag properties quantify over ('reserved ranges anywhere
+        except on the NDEF TLV's tag and length-field bytes'); the fixed blocks Dh..Fh inside the header do not count"""
+        return self.len1_outside if n < 255 else self.len3_outside
+
+    @property
+    def max_len(self):
+        """largest message length of this layout that lies inside the quantifier"""
+        if self.len1_outside:
+            return -1
+        return min(self.capacity, 254) if self.len3_outside else self.capacity
 
     def value_addrs(self, n):
         """addresses the value bytes of a message of length n occupy, and the terminator address (or None)"""
@@ -270,6 +287,8 @@ def _finish(L, rng, image, old_len, terminator):
         n = rng.choice([0, 1, min(cap, 254), min(cap, 255), cap, rng.randrange(cap + 1), rng.randrange(cap + 1)])
     else:
         n = min(int(old_len), cap)
+    if L.len3_outside:
+        n = min(n, 254)
     L.old = rng.randbytes(n)
     place_message(image, L.free, L.old, terminator)
     L.image = bytes(image)
@@ -285,13 +304,20 @@ def _base_image(rng, phys, tms, fill=None):
     return image
 
 
-def gen_static(rng, nulls=None, prop=None, old_len=None, hr1=None, terminator=None):
+def gen_static(rng, nulls=None, prop=None, old_len=None, hr1=None, terminator=None, tms=None):
+    """tms: CC byte 2 (0Eh = the whole 120 byte memory; smaller: the data area ends in front of the loaded memory;
+    "small": a random value 02h..0Dh)"""
     L = Layout()
     L.phys = L.data_size = 120
     L.dynamic = False
     L.hr0 = 0x11
     L.hr1 = (0x48 if rng.random() < 0.6 else rng.randrange(256)) if hr1 is None else hr1
-    image = _base_image(rng, 120, 0x0E)
+    if tms == "small":
+        tms = rng.choice([0x0D, 0x0C, 0x0C, 0x0B, 0x08, rng.randrange(3, 0x0E), rng.randrange(3, 0x0E)])
+    tms = 0x0E if tms is None else int(tms)
+    assert 3 <= tms <= 0x0E
+    L.data_size = (tms + 1) * 8
+    image = _base_image(rng, 120, tms)
     image[9] = rng.choice([0x10, 0x10, 0x11, 0x1F])          # minor versions are to be accepted
     L.reserved = static_reserved(False)
     L.oneway = set(range(112, 120))
@@ -301,13 +327,16 @@ def gen_static(rng, nulls=None, prop=None, old_len=None, hr1=None, terminator=No
         image[pos] = NULL_T
         pos += 1
     L.prop_tlv = (rng.random() < 0.15) if prop is None else prop
+    if L.prop_tlv and L.data_size < 40:
+        L.prop_tlv = False
     if L.prop_tlv:
         n = rng.randrange(0, 6)
         image[pos] = PROP_T
         image[pos + 1] = n
         pos += 2 + n
     L.offset = pos
-    L.free = [x for x in range(pos, 120) if x not in L.reserved]
+    L.free = [x for x in range(pos, L.data_size) if x not in L.reserved]
+    assert len(L.free) >= 3, (pos, L.data_size)
     L.capacity = capacity_of(len(L.free))
     return _finish(L, rng, image, old_len, rng.random() < 0.7 if terminator is None else terminator)
 
@@ -316,7 +345,12 @@ RANGE_CLASSES = ["factory", "before", "inside", "inside", "tail", "beyond-data",
 
 
 def gen_dynamic(rng, phys=None, data_size=None, nulls=None, n_lock=None, n_mem=None, old_len=None, align=None,
-                hr0=None, hr1=None, classes=None, terminator=None, prop=None, long_prop=None, hdr_straddle=None):
+                hr0=None, hr1=None, classes=None, terminator=None, prop=None, long_prop=None, hdr_straddle=None,
+                behind_length=None, free_target=None):
+    """behind_length = 2 | 4: one (additional, if need be) control TLV declares a range that starts directly behind the
+    1-byte (NDEF TLV offset + 2) / 3-byte (offset + 4) length field - L.behind_length tells whether it was realised.
+    free_target = N: the data area size (CC byte 2) and NULL TLV padding are chosen so that exactly N usable bytes lie
+    between the NDEF TLV's T byte and the end of the data area (L.free_target == len(L.free) when realised)."""
     L = Layout()
     L.dynamic = True
     L.phys = phys or rng.choice([256, 384, 512, 512, 512, 1024, 2048])
@@ -330,6 +364,9 @@ def gen_dynamic(rng, phys=None, data_size=None, nulls=None, n_lock=None, n_mem=N
     n_lock = rng.randrange(0, 3) if n_lock is None else n_lock
     n_mem = rng.randrange(0, 3) if n_mem is None else n_mem
     kinds = ["lock"] * n_lock + ["mem"] * n_mem
+    if behind_length and not kinds:
+        kinds = [rng.choice(["lock", "mem"])]
+    behind_slot = rng.randrange(len(kinds)) if behind_length else None
     if align is None:
         na = rng.randrange(0, 4) if nulls is None else nulls
         nb = 0
@@ -370,6 +407,10 @@ def gen_dynamic(rng, phys=None, data_size=None, nulls=None, n_lock=None, n_mem=N
         cls = rng.choice(classes or RANGE_CLASSES)
         if align is not None and cls == "before":
             cls = "inside"
+        if behind_slot is not None and len(chosen) == behind_slot:
+            cls = "behind-length"
+        if free_target is not None and cls == "adjacent":
+            cls = "inside"                 # (a range added behind the NDEF TLV later would change the usable count)
         nbytes = rng.randrange(1, 9) if k == "lock" else rng.choice([1, 2, 3, 4, 8, 12, rng.randrange(1, 17)])
         if cls == "factory":
             if k in seen_factory:
@@ -389,7 +430,7 @@ def gen_dynamic(rng, phys=None, data_size=None, nulls=None, n_lock=None, n_mem=N
         elif cls == "low":
             start = rng.randrange(0, 12)
             nbytes = min(nbytes, 12 - start)
-        elif cls == "adjacent":
+        elif cls in ("adjacent", "behind-length"):
             start = None
         if start is not None:
             start, posb, e = snap(start, rng)
@@ -430,8 +471,46 @@ def gen_dynamic(rng, phys=None, data_size=None, nulls=None, n_lock=None, n_mem=N
         if pos not in reserved:
             image[pos] = NULL_T          # a usable byte in front of a reserved one: filler NULL TLV
         pos += 1
+    # ---- free_target: exactly N usable bytes from the T byte to the end of the data area ---------------
+    if free_target is not None and not L.hdr_straddle and not behind_length:
+        for _try in range(6):
+            ds = next((d for d in range(136, L.phys + 1, 8)
+                       if d >= pos + 8 and len([x for x in range(pos, d) if x not in reserved]) >= free_target), None)
+            if ds is None:
+                break
+            excess = len([x for x in range(pos, ds) if x not in reserved]) - free_target
+            if excess == 0:
+                L.data_size = data_size = ds
+                image[10] = ds // 8 - 1
+                L.free_target = free_target
+                break
+            while excess:                       # NULL TLVs in front of the NDEF TLV use up the surplus
+                if pos not in reserved:
+                    image[pos] = NULL_T
+                    excess -= 1
+                pos += 1
+            while any(a in reserved for a in range(pos, pos + 4)):
+                if pos not in reserved:
+                    image[pos] = NULL_T
+                pos += 1
     L.offset = pos
     assert pos + 4 <= data_size
+    # ---- "behind-length": a declared range that starts directly behind the stored length field ----
+    for c in chosen:
+        if c[6] != "behind-length":
+            continue
+        want = L.offset + behind_length
+        s, posb, e = snap(want, rng)
+        room = len([x for x in range(L.offset, data_size) if x not in reserved and not want <= x < want + c[3]])
+        if s == want and not L.hdr_straddle and room >= 8:
+            c[2], c[4], c[5] = s, posb, e
+            L.behind_length = behind_length
+        else:
+            s, posb, e = snap(rng.randrange(data_size, 2048) if data_size < 2048 else 2047, rng)
+            if s < data_size and s + c[3] > 12:
+                s, posb, e, c[3] = 0, 0, 3, 1
+            c[2], c[4], c[5], c[6] = s, posb, e, "beyond-data"
+        reserved.update(x for x in range(c[2], c[2] + c[3]) if x < 2048)
     # ---- "adjacent": a declared range that starts right behind the last byte of a message -------
     for c in chosen:
         if c[6] != "adjacent":
@@ -480,7 +559,11 @@ def gen_dynamic(rng, phys=None, data_size=None, nulls=None, n_lock=None, n_mem=N
     # C01/C03 quantify over layouts whose *declared* ranges do not fall on the NDEF TLV's tag and length-field bytes:
     # only the fixed blocks Dh..Fh may lie inside the header span
     fixed = static_reserved(True)
-    L.hdr_declared_on_header = any(a in reserved and a not in fixed for a in range(L.free[0], L.free[min(3, len(L.free) - 1)] + 1))
+    L.len1_outside = any(a in reserved and a not in fixed for a in range(L.free[0], L.free[min(1, len(L.free) - 1)] + 1))
+    L.len3_outside = any(a in reserved and a not in fixed for a in range(L.free[0], L.free[min(3, len(L.free) - 1)] + 1))
+    L.hdr_declared_on_header = L.len3_outside
+    if L.free_target is not None and len(L.free) != L.free_target:
+        L.free_target = None
     return _finish(L, rng, image, old_len, rng.random() < 0.7 if terminator is None else terminator)
 
 
